@@ -151,3 +151,20 @@ func frontFacts(repo string, p *pkgFiles, f *facts) {
 	}
 	f.strs["durationTableSizeExpr"] = ds
 }
+
+func init() { extraExtractors = append(extraExtractors, triangleFacts) }
+
+// triangleFacts: does the JSON front end ever claim the triangle inequality for a travel expression?
+func triangleFacts(repo string, _ *pkgFiles, f *facts) {
+	fp := parseDir(filepath.Join(repo, "factory"))
+	found := "never"
+	for name, file := range fp.files {
+		ast.Inspect(file, func(n ast.Node) bool {
+			if call, ok := n.(*ast.CallExpr); ok && strings.HasSuffix(fp.src(call.Fun), "SetSatisfiesTriangleInequality") {
+				found = name
+			}
+			return true
+		})
+	}
+	f.strs["factorySetsTriangleInequality"] = found
+}
